@@ -115,6 +115,8 @@ def run(ctx):
         return FC.canon_model(bits_txt, ft)
 
     def val(x, ft):
+        if x == "nan":
+            return None
         b_ = int(x, 16) if isinstance(x, str) else x
         if FC.is_nan_bits(b_, ft) or FC.is_inf_bits(b_, ft):
             return None
